@@ -378,6 +378,22 @@ impl Default for BloomFilterBuilder {
     }
 }
 
+/// Verification hooks (add-only): forwarders to the private hashing/index kernels and the bit array.
+#[cfg(feature = "verif-hooks")]
+impl BloomFilter {
+    pub fn verif_hash_pair<T: Hash>(&self, value: &T) -> (u64, u64) {
+        self.hash_pair(value)
+    }
+
+    pub fn verif_get_bit_index(&self, h1: u64, h2: u64, i: usize) -> usize {
+        self.get_bit_index(h1, h2, i)
+    }
+
+    pub fn verif_bits(&self) -> &[u64] {
+        &self.bits
+    }
+}
+
 #[cfg(test)]
 #[allow(clippy::unwrap_used)]
 mod tests {
